@@ -370,3 +370,628 @@ Proof.
     rewrite Z2Nat.id by assumption. apply Forall_sorted. exact Hfit.
   - apply sort_images_rel; [|exact Hrel]. intros x y ((G1 & _) & _). exact G1.
 Qed.
+
+(* ====================================================================== D. what the binary holds at a register *)
+Definition reg_end (r : reg) : Z := s_offset (r_base r) + s_width (r_base r) / 8.
+Definition disjoint_regs (r r' : reg) : Prop := reg_end r <= s_offset (r_base r') \/ reg_end r' <= s_offset (r_base r).
+(* no other register of the file shares a byte with register i *)
+Definition isolated (g : regs) (i : nat) : Prop :=
+  forall j r r', nth_error (g_regs g) i = Some r -> nth_error (g_regs g) j = Some r' -> j <> i -> disjoint_regs r r'.
+
+Lemma covers_reg_img big r p : wf_reg r ->
+  covers (reg_img big r) p = (s_offset (r_base r) <=? Z.of_nat p) && (Z.of_nat p <? reg_end r).
+Proof. intros Hr. unfold covers. rewrite reg_img_len by assumption. reflexivity. Qed.
+
+Theorem export_reg_bytes_lemma g size fill i r bin : wf_regs g -> regs_fit g size -> 0 <= size ->
+  nth_error (g_regs g) i = Some r -> isolated g i -> export_with g size fill = Ok bin ->
+  slice bin (Z.to_nat (s_offset (r_base r))) (Z.to_nat (reg_end r)) =
+  enc (g_big g) (Z.to_nat (s_width (r_base r) / 8)) (reg_stored r true).
+Proof.
+  intros Hg Hf Hs E Hiso Ex.
+  destruct (export_with_ok g size fill Hg Hf Hs) as (bin' & Ex' & Lb & _ & B). rewrite Ex in Ex'. injection Ex' as <-.
+  assert (Hr : wf_reg r) by exact (wf_regs_nth g i r Hg E).
+  pose proof Hr as ((B1 & B2 & _) & _). destruct (width_bytes _ B1 B2) as (Q1 & Q2 & Q3).
+  assert (Hfit : fits (total_of g size) (reg_img (g_big g) r)).
+  { pose proof (reg_imgs_fit g size Hg Hf) as H. unfold reg_imgs in H. rewrite Forall_forall in H. apply H.
+    apply in_map. eapply nth_error_In; eassumption. }
+  destruct Hfit as (F1 & F2). rewrite reg_img_len in F2 by assumption. cbn [fst reg_img] in F1, F2. rewrite <- Lb in F2.
+  set (o := Z.to_nat (s_offset (r_base r))). set (n := Z.to_nat (s_width (r_base r) / 8)).
+  assert (Eend : Z.to_nat (reg_end r) = (o + n)%nat) by (unfold reg_end, o, n; lia).
+  rewrite Eend.
+  apply nth_ext with (d := 0%N) (d' := 0%N).
+  { rewrite slice_length by (unfold zlen, o, n in *; lia). rewrite enc_length. lia. }
+  intros p Hp. rewrite slice_length in Hp by (unfold zlen, o, n in *; lia).
+  unfold slice. rewrite nth_firstn' by lia. rewrite nth_skipn'.
+  rewrite B by (unfold zlen, o, n in *; lia).
+  rewrite (byte_at_unique (o + p) (reg_img (g_big g) r)).
+  - cbn [fst snd reg_img]. fold o. f_equal. lia.
+  - apply sort_images_in. unfold reg_imgs. apply in_map. eapply nth_error_In; eassumption.
+  - rewrite covers_reg_img by assumption. unfold reg_end, o, n in *. lia.
+  - intros x Hx Hc. apply (proj1 (sort_images_in _ _)) in Hx. unfold reg_imgs in Hx. apply in_map_iff in Hx. destruct Hx as (r' & <- & Hin).
+    destruct (In_nth_error _ _ Hin) as (j & Ej).
+    destruct (Nat.eq_dec j i) as [->|Hne]; [congruence|].
+    exfalso. assert (Hr' : wf_reg r') by exact (wf_regs_nth g j r' Hg Ej).
+    rewrite covers_reg_img in Hc by assumption.
+    destruct (Hiso j r r' E Ej Hne) as [D|D]; unfold reg_end, o, n in *; lia.
+Qed.
+
+(* ====================================================================== E. computed fields *)
+(* what the documentation demands of a register with a computed field:
+   method 0 (pfr_reg_inverse_high_half):   bits 16..31 are the bitwise inverse of bits 0..15
+   method 1 (pfr_reg_inverse_lower_8_bits): bits 8..15 are the bitwise inverse of bits 0..7 *)
+Definition computed_rel (m v : Z) : Prop :=
+  (m = 0 -> getbits v 16 16 = Z.lxor (getbits v 0 16) 65535) /\
+  (m = 1 -> getbits v 8 8 = Z.lxor (getbits v 0 8) 255).
+
+Lemma ones16 : 65535 = Z.ones 16. Proof. reflexivity. Qed.
+Lemma ones8 : 255 = Z.ones 8. Proof. reflexivity. Qed.
+
+Lemma inverse_high_half_spec v : in_range 32 v ->
+  exists v', py_pfr_reg_inverse_high_half v = Ok v' /\ in_range 32 v' /\
+             getbits v' 16 16 = Z.lxor (getbits v' 0 16) 65535 /\ getbits v' 0 16 = getbits v 0 16.
+Proof.
+  intros (V0 & V1). unfold py_pfr_reg_inverse_high_half. eexists. split; [reflexivity|].
+  set (lo := Z.land v 65535).
+  assert (Hlo : forall n, 0 <= n -> Z.testbit lo n = Z.testbit v n && (n <? 16)).
+  { intros n Hn. unfold lo. rewrite Z.land_spec, ones16, testbit_ones_full by lia. replace (0 <=? n) with true by lia. reflexivity. }
+  assert (Hx : forall n, 0 <= n -> Z.testbit (Z.lxor lo 65535) n = (n <? 16) && negb (Z.testbit v n)).
+  { intros n Hn. rewrite Z.lxor_spec, Hlo, ones16, testbit_ones_full by lia. replace (0 <=? n) with true by lia.
+    destruct (n <? 16), (Z.testbit v n); reflexivity. }
+  assert (Hv : forall n, 0 <= n -> Z.testbit (Z.lor lo (Z.shiftl (Z.lxor lo 65535) 16)) n =
+                                   if n <? 16 then Z.testbit v n else (n <? 32) && negb (Z.testbit v (n - 16))).
+  { intros n Hn. rewrite Z.lor_spec, Hlo by lia. rewrite Z.shiftl_spec by lia.
+    destruct (Z.ltb_spec n 16).
+    - rewrite (Z.testbit_neg_r _ (n - 16)) by lia. now rewrite andb_true_r, orb_false_r.
+    - rewrite Hx by lia. rewrite andb_false_r. cbn [orb]. destruct (Z.ltb_spec n 32), (Z.ltb_spec (n - 16) 16); try lia; reflexivity. }
+  split; [|split].
+  - split.
+    + apply Z.lor_nonneg. split; [apply Z.land_nonneg; lia|]. apply Z.shiftl_nonneg. apply Z.lxor_nonneg.
+      unfold lo. split; intros; [lia|apply Z.land_nonneg; lia].
+    + apply bits_small; [lia| |].
+      * apply Z.lor_nonneg. split; [apply Z.land_nonneg; lia|]. apply Z.shiftl_nonneg. apply Z.lxor_nonneg.
+        unfold lo. split; intros; [lia|apply Z.land_nonneg; lia].
+      * intros n Hn. rewrite Hv by lia. replace (n <? 16) with false by lia. replace (n <? 32) with false by lia. reflexivity.
+  - apply Z.bits_inj'. intros n Hn. rewrite testbit_getbits by lia.
+    rewrite Z.lxor_spec, testbit_getbits, ones16, testbit_ones_full by lia. rewrite !Hv by lia.
+    replace (0 <=? n) with true by lia. replace (n + 0) with n by lia.
+    destruct (Z.ltb_spec n 16).
+    + replace (n + 16 <? 16) with false by lia. replace (n + 16 <? 32) with true by lia. replace (n + 16 - 16) with n by lia.
+      cbn. now destruct (Z.testbit v n).
+    + now rewrite !andb_false_r.
+  - apply Z.bits_inj'. intros n Hn. rewrite !testbit_getbits by lia. replace (n + 0) with n by lia. rewrite Hv by lia.
+    destruct (n <? 16); [reflexivity|now rewrite !andb_false_r].
+Qed.
+
+Lemma inverse_lower_8_spec v : in_range 32 v ->
+  exists v', py_pfr_reg_inverse_lower_8_bits v = Ok v' /\ in_range 32 v' /\
+             getbits v' 8 8 = Z.lxor (getbits v' 0 8) 255 /\ getbits v' 0 8 = getbits v 0 8 /\ getbits v' 16 16 = getbits v 16 16.
+Proof.
+  intros (V0 & V1). unfold py_pfr_reg_inverse_lower_8_bits. eexists. split; [reflexivity|].
+  assert (Hm : 4294902015 = Z.lor (Z.ones 8) (Z.shiftl (Z.ones 16) 16)) by reflexivity.
+  assert (Hb : forall n, 0 <= n -> Z.testbit (Z.land v 4294902015) n = Z.testbit v n && ((n <? 8) || ((16 <=? n) && (n <? 32)))).
+  { intros n Hn. rewrite Z.land_spec, Hm, Z.lor_spec, Z.shiftl_spec, testbit_ones_full by lia. f_equal.
+    replace (0 <=? n) with true by lia. cbn [andb].
+    destruct (Z.leb_spec 16 n).
+    - rewrite testbit_ones_full by lia. replace (0 <=? n - 16) with true by lia. cbn [andb]. f_equal. lia.
+    - rewrite (Z.testbit_neg_r _ (n - 16)) by lia. reflexivity. }
+  assert (Hi : forall n, 0 <= n -> Z.testbit (Z.lxor (Z.land v 255) 255) n = (n <? 8) && negb (Z.testbit v n)).
+  { intros n Hn. rewrite Z.lxor_spec, Z.land_spec, ones8, testbit_ones_full by lia. replace (0 <=? n) with true by lia.
+    destruct (n <? 8), (Z.testbit v n); reflexivity. }
+  set (v' := Z.lor (Z.land v 4294902015) (Z.shiftl (Z.lxor (Z.land v 255) 255) 8)).
+  assert (Hv : forall n, 0 <= n -> Z.testbit v' n =
+             if n <? 8 then Z.testbit v n else if n <? 16 then negb (Z.testbit v (n - 8)) else (n <? 32) && Z.testbit v n).
+  { intros n Hn. unfold v'. rewrite Z.lor_spec, Hb, Z.shiftl_spec by lia.
+    destruct (Z.ltb_spec n 8).
+    - rewrite (Z.testbit_neg_r _ (n - 8)) by lia. cbn [orb]. now rewrite andb_true_r, orb_false_r.
+    - rewrite Hi by lia. cbn [orb]. destruct (Z.ltb_spec n 16).
+      + replace (16 <=? n) with false by lia. replace (n - 8 <? 8) with true by lia. cbn. now rewrite andb_false_r.
+      + replace (16 <=? n) with true by lia. replace (n - 8 <? 8) with false by lia. cbn. rewrite orb_false_r. apply andb_comm. }
+  assert (Hnn : 0 <= v').
+  { unfold v'. apply Z.lor_nonneg. split; [apply Z.land_nonneg; lia|]. apply Z.shiftl_nonneg. apply Z.lxor_nonneg.
+    split; intros; [lia|apply Z.land_nonneg; lia]. }
+  split; [|split; [|split]].
+  - split; [exact Hnn|]. apply bits_small; [lia|exact Hnn|].
+    intros n Hn. rewrite Hv by lia. replace (n <? 8) with false by lia. replace (n <? 16) with false by lia.
+    replace (n <? 32) with false by lia. reflexivity.
+  - apply Z.bits_inj'. intros n Hn. rewrite testbit_getbits by lia.
+    rewrite Z.lxor_spec, testbit_getbits, ones8, testbit_ones_full by lia. rewrite !Hv by lia.
+    replace (0 <=? n) with true by lia. replace (n + 0) with n by lia.
+    destruct (Z.ltb_spec n 8).
+    + replace (n + 8 <? 8) with false by lia. replace (n + 8 <? 16) with true by lia. replace (n + 8 - 8) with n by lia.
+      cbn. now destruct (Z.testbit v n).
+    + now rewrite !andb_false_r.
+  - apply Z.bits_inj'. intros n Hn. rewrite !testbit_getbits by lia. replace (n + 0) with n by lia. rewrite Hv by lia.
+    destruct (n <? 8); [reflexivity|now rewrite !andb_false_r].
+  - apply Z.bits_inj'. intros n Hn. rewrite !testbit_getbits by lia. rewrite Hv by lia.
+    destruct (Z.ltb_spec n 16); [|now rewrite !andb_false_r].
+    replace (n + 16 <? 8) with false by lia. replace (n + 16 <? 16) with false by lia. replace (n + 16 <? 32) with true by lia.
+    reflexivity.
+Qed.
+
+Lemma py_compute_spec m v : in_range 32 v -> (m = 0 \/ m = 1) ->
+  exists v', py_compute m v = Ok v' /\ in_range 32 v' /\ computed_rel m v'.
+Proof.
+  intros HV [->| ->]; unfold py_compute; cbn [Z.eqb].
+  - destruct (inverse_high_half_spec v HV) as (v' & E & R & C & _). exists v'. split; [exact E|]. split; [exact R|].
+    split; [intros _; exact C|discriminate].
+  - destruct (inverse_lower_8_spec v HV) as (v' & E & R & C & _). exists v'. split; [exact E|]. split; [exact R|].
+    split; [discriminate|intros _; exact C].
+Qed.
+
+(* ---------------------------------------------------------------- BaseConfigArea.set_config after load_yml_config *)
+Definition comp_reg (c : nat * nat * Z) : nat := fst (fst c).
+(* the register of a computed field exists, is 32 bits wide, the method is one of the translated ones *)
+Definition comp_ok (g : regs) (c : nat * nat * Z) : Prop :=
+  exists s, t_sreg g (Top (comp_reg c)) = Some s /\ s_width s = 32 /\ (snd c = 0 \/ snd c = 1).
+
+Lemma comp_ok_layout g g' c : same_layout g g' -> comp_ok g c -> comp_ok g' c.
+Proof.
+  intros Hsl (s & E & W & M). destruct (same_layout_sreg g g' _ s Hsl E) as (s' & E' & Ee).
+  destruct (erase_s_fields s s' Ee) as (_ & Ew & _). exists s'. split; [exact E'|]. split; [congruence|exact M].
+Qed.
+
+Lemma recompute_lemma cfg : forall comps g, wf_regs g -> Forall (comp_ok g) comps -> NoDup (map comp_reg comps) ->
+  exists g', recompute g cfg comps = Ok g' /\ wf_regs g' /\ same_layout g g' /\
+    (forall u raw, ~ In (top_of u) (map comp_reg comps) -> t_get g' u raw = t_get g u raw) /\
+    (forall i k m e, In (i, k, m) comps -> cfg_lookup cfg (Top i) None = Some e -> needs_compute e k = true ->
+       exists v, t_get g' (Top i) true = Ok v /\ in_range 32 v /\ computed_rel m v).
+Proof.
+  induction comps as [|((i, k), m) rest IH]; intros g Hg Hc Hnd; cbn [recompute].
+  - exists g. split; [reflexivity|]. split; [assumption|]. split; [apply same_layout_refl|]. split; [reflexivity|].
+    intros ? ? ? ? [].
+  - inversion Hc as [|? ? (s & Es & Ws & Hm) Hrest]; subst. cbn [comp_reg fst snd] in Es, Hm.
+    cbn [map comp_reg fst] in Hnd. inversion Hnd as [|? ? Hni Hnd']; subst.
+    assert (Hstep : forall g1, wf_regs g1 -> same_layout g g1 ->
+              (forall u raw, top_of u <> i -> t_get g1 u raw = t_get g u raw) ->
+              (forall e, cfg_lookup cfg (Top i) None = Some e -> needs_compute e k = true ->
+                 exists v, t_get g1 (Top i) true = Ok v /\ in_range 32 v /\ computed_rel m v) ->
+              exists g', recompute g1 cfg rest = Ok g' /\ wf_regs g' /\ same_layout g g' /\
+                (forall u raw, ~ In (top_of u) (map comp_reg ((i, k, m) :: rest)) -> t_get g' u raw = t_get g u raw) /\
+                (forall i0 k0 m0 e, In (i0, k0, m0) ((i, k, m) :: rest) -> cfg_lookup cfg (Top i0) None = Some e ->
+                   needs_compute e k0 = true -> exists v, t_get g' (Top i0) true = Ok v /\ in_range 32 v /\ computed_rel m0 v)).
+    { intros g1 Hg1 Hsl1 Hfr1 Hhere.
+      destruct (IH g1 Hg1) as (g' & R & W' & Sl' & Fr' & Co'); [|assumption|].
+      { eapply Forall_impl; [|exact Hrest]. intros c. now apply comp_ok_layout. }
+      exists g'. split; [exact R|]. split; [exact W'|]. split; [eapply same_layout_trans; eassumption|]. split.
+      - intros u raw Hu. cbn [map comp_reg fst In] in Hu. rewrite Fr' by tauto. apply Hfr1. intros Heq. apply Hu. left. now symmetry.
+      - intros i0 k0 m0 e [Heq|Hin] Hl Hn.
+        + injection Heq as <- <- <-. destruct (Hhere e Hl Hn) as (v & G & Rg & Cr). exists v. split; [|tauto].
+          rewrite Fr'; [exact G|]. cbn [top_of]. exact Hni.
+        + eapply Co'; eassumption. }
+    destruct (cfg_lookup cfg (Top i) None) as [e|] eqn:El.
+    + destruct (needs_compute e k) eqn:En.
+      * destruct (t_get_total g (Top i) s true Hg Es) as (v & Gv & Rv). rewrite Ws in Rv.
+        destruct (py_compute_spec m v Rv Hm) as (v' & Cv & Rv' & Cr).
+        assert (Rv'' : in_range (s_width s) v') by now rewrite Ws.
+        destruct (t_set_ok g (Top i) s v' true Hg Es Rv'') as (g1 & S1 & S2 & S3 & S4 & S5 & _).
+        rewrite Gv. cbn [bind]. rewrite Cv. cbn [bind]. rewrite S1. cbn [bind].
+        apply (Hstep g1 S2 S3); [intros u raw Hu; apply S5; exact Hu|].
+        intros e' He' _. exists v'. tauto.
+      * apply (Hstep g Hg (same_layout_refl g)); [reflexivity|]. intros e' He'. injection He' as <-. congruence.
+    + apply (Hstep g Hg (same_layout_refl g)); [reflexivity|]. discriminate.
+Qed.
+
+(* ====================================================================== F. well-formed areas (decidable) *)
+Definition reg_fits_b (size : Z) (r : reg) : bool :=
+  (0 <=? s_offset (r_base r)) && ((size =? 0) || (reg_end r <=? size)).
+Definition disjoint_b (r r' : reg) : bool := (reg_end r <=? s_offset (r_base r')) || (reg_end r' <=? s_offset (r_base r)).
+Definition indexed {A} (l : list A) : list (nat * A) := combine (seq 0 (length l)) l.
+Definition isolated_b (g : regs) (i : nat) : bool :=
+  match nth_error (g_regs g) i with
+  | None => true
+  | Some r => forallb (fun jr => Nat.eqb (fst jr) i || disjoint_b r (snd jr)) (indexed (g_regs g))
+  end.
+(* the hidden bit-field named in the database is exactly the bits the method fills *)
+Definition comp_field_b (s : sreg) (k : nat) (m : Z) : bool :=
+  match nth_error (s_fields s) k with
+  | Some f => if m =? 0 then (f_off f =? 16) && (f_width f =? 16) else (f_off f =? 8) && (f_width f =? 8)
+  | None => false
+  end.
+Definition comp_ok_b (g : regs) (c : nat * nat * Z) : bool :=
+  match t_sreg g (Top (comp_reg c)) with
+  | Some s => (s_width s =? 32) && ((snd c =? 0) || (snd c =? 1)) && isolated_b g (comp_reg c) && comp_field_b s (snd (fst c)) (snd c)
+  | None => false
+  end.
+Fixpoint nodup_b (l : list nat) : bool :=
+  match l with [] => true | x :: t => negb (existsb (Nat.eqb x) t) && nodup_b t end.
+Definition area_total (A : area) : Z := if a_sized A then a_size A else 0.
+
+(* the bit-fields of one register do not overlap (registers merged as aliases could) *)
+Fixpoint fields_disjoint_b (fs : list field) : bool :=
+  match fs with
+  | [] => true
+  | f :: t => forallb (fun f' => (f_off f + f_width f <=? f_off f') || (f_off f' + f_width f' <=? f_off f)) t && fields_disjoint_b t
+  end.
+Definition reg_fields_disjoint_b (r : reg) : bool :=
+  fields_disjoint_b (s_fields (r_base r)) && forallb (fun s => fields_disjoint_b (s_fields s)) (r_subs r).
+
+Definition wf_area_b (A : area) : bool :=
+  forallb reg_fields_disjoint_b (g_regs (a_regs A)) &&
+  wf_regs_b false (a_regs A) &&
+  forallb (reg_fits_b (area_total A)) (g_regs (a_regs A)) &&
+  (0 <=? a_size A) && (negb (a_sized A) || ((0 <? a_size A) && (0 <=? a_kind A) && (a_kind A <=? 3))) &&
+  (a_fill A <? 256)%N &&
+  forallb (comp_ok_b (a_regs A)) (a_computed A) && nodup_b (map comp_reg (a_computed A)) &&
+  match a_seal A with Some (start, count) => (0 <=? start) && (0 <=? count) && (start + 4 * count <=? a_size A) | None => true end &&
+  (* a segment class with a documented SIZE exports exactly that many bytes *)
+  (a_sized A || (a_size A =? 0) || (image_size (reg_imgs (a_regs A)) =? a_size A)) &&
+  (* the optional XMCD register is described only for XMCD *)
+  match a_opt A with Some _ => a_kind A =? 7 | None => true end.
+
+Lemma nth_error_indexed {A} (l : list A) : forall j x, nth_error l j = Some x -> In (j, x) (indexed l).
+Proof.
+  unfold indexed. assert (G : forall s j x, nth_error l j = Some x -> In ((s + j)%nat, x) (combine (seq s (length l)) l)).
+  { induction l as [|a t IH]; intros s j x H; [destruct j; discriminate|]. destruct j as [|j]; cbn in *.
+    - injection H as <-. left. f_equal. lia.
+    - right. replace (s + S j)%nat with (S s + j)%nat by lia. now apply IH. }
+  intros j x H. exact (G 0%nat j x H).
+Qed.
+
+Lemma isolated_b_sound g i : isolated_b g i = true -> isolated g i.
+Proof.
+  unfold isolated_b, isolated. intros H j r r' Ei Ej Hne. rewrite Ei in H. rewrite forallb_forall in H.
+  specialize (H (j, r') (nth_error_indexed _ j r' Ej)). cbn [fst snd] in H.
+  replace (Nat.eqb j i) with false in H by (symmetry; now apply Nat.eqb_neq). cbn [orb] in H.
+  unfold disjoint_b in H. unfold disjoint_regs. lia.
+Qed.
+
+Lemma nodup_b_sound l : nodup_b l = true -> NoDup l.
+Proof.
+  induction l as [|x t IH]; intros H; [constructor|]. cbn in H. apply andb_true_iff in H. destruct H as (H1 & H2).
+  constructor; [|now apply IH]. intros Hin. apply negb_true_iff in H1.
+  assert (existsb (Nat.eqb x) t = true) by (apply existsb_exists; exists x; split; [assumption|apply Nat.eqb_refl]). congruence.
+Qed.
+
+Lemma comp_ok_b_sound g c : comp_ok_b g c = true -> comp_ok g c /\ isolated g (comp_reg c).
+Proof.
+  unfold comp_ok_b, comp_ok. destruct (t_sreg g (Top (comp_reg c))) as [s|]; [|discriminate]. intros H.
+  apply andb_true_iff in H. destruct H as (H & _). apply andb_true_iff in H. destruct H as (H & H3).
+  apply andb_true_iff in H. destruct H as (H1 & H2).
+  split; [|now apply isolated_b_sound]. exists s. split; [reflexivity|]. split; lia.
+Qed.
+
+(* the facts the theorems use *)
+Record wf_area (A : area) : Prop := {
+  wa_regs : wf_regs (a_regs A);
+  wa_fit : regs_fit (a_regs A) (area_total A);
+  wa_size : 0 <= a_size A;
+  wa_sized : a_sized A = true -> 0 < a_size A /\ 0 <= a_kind A <= 3;
+  wa_fill : (a_fill A < 256)%N;
+  wa_comp : Forall (fun c => comp_ok (a_regs A) c /\ isolated (a_regs A) (comp_reg c)) (a_computed A);
+  wa_nodup : NoDup (map comp_reg (a_computed A));
+  wa_seal : forall start count, a_seal A = Some (start, count) -> 0 <= start /\ 0 <= count /\ start + 4 * count <= a_size A;
+  wa_doc : a_sized A = false -> a_size A <> 0 -> image_size (reg_imgs (a_regs A)) = a_size A;
+  wa_opt : a_kind A <> 7 -> a_opt A = None
+}.
+
+Lemma wf_area_b_sound A : wf_area_b A = true -> wf_area A.
+Proof.
+  unfold wf_area_b. intros H.
+  repeat match type of H with (_ && _ = true) => apply andb_true_iff in H; let H' := fresh "C" in destruct H as (H & H') end.
+  constructor.
+  - now apply wf_regs_b_sound.
+  - unfold regs_fit. apply Forall_forall. intros r Hr. rewrite forallb_forall in C7. specialize (C7 r Hr).
+    unfold reg_fits_b, reg_end in C7. unfold reg_fits. lia.
+  - lia.
+  - intros Hs. rewrite Hs in C5. cbn in C5. lia.
+  - apply N.ltb_lt. exact C4.
+  - apply Forall_forall. intros c Hc. rewrite forallb_forall in C3. now apply comp_ok_b_sound, C3.
+  - now apply nodup_b_sound.
+  - intros start count E. rewrite E in C1. lia.
+  - intros Hs Hn. rewrite Hs in C0. cbn in C0. lia.
+  - intros Hk. destruct (a_opt A); [lia|reflexivity].
+Qed.
+
+(* ====================================================================== G. the area theorems *)
+(* a state of area A: a well-formed register file with the layout of the freshly built one *)
+Definition state_of (A : area) (g : regs) : Prop := wf_regs g /\ same_layout (a_regs A) g.
+
+Lemma state_fresh A : wf_area A -> state_of A (a_regs A).
+Proof. intros W. split; [apply W|apply same_layout_refl]. Qed.
+
+Lemma regs_fit_layout g g' n : same_layout g g' -> regs_fit g n -> regs_fit g' n.
+Proof.
+  intros Hsl Hf. unfold regs_fit in *. apply Forall_forall. intros r' Hin. destruct (In_nth_error _ _ Hin) as (i & Ei).
+  destruct (same_layout_nth g' g i r' (eq_sym Hsl) Ei) as (r & Er & _).
+  destruct (same_layout_geom g g' i r r' Hsl Er Ei) as (Eo & Ew & _).
+  rewrite Forall_forall in Hf. specialize (Hf r (nth_error_In _ _ Er)). unfold reg_fits in *. rewrite Eo, Ew. exact Hf.
+Qed.
+
+Lemma isolated_layout g g' i : same_layout g g' -> isolated g i -> isolated g' i.
+Proof.
+  intros Hsl Hi j r r' Ei Ej Hne.
+  destruct (same_layout_nth g' g i r (eq_sym Hsl) Ei) as (r0 & Er0 & _).
+  destruct (same_layout_nth g' g j r' (eq_sym Hsl) Ej) as (r1 & Er1 & _).
+  destruct (same_layout_geom g g' i r0 r Hsl Er0 Ei) as (Eo & Ew & _).
+  destruct (same_layout_geom g g' j r1 r' Hsl Er1 Ej) as (Eo' & Ew' & _).
+  specialize (Hi j r0 r1 Er0 Er1 Hne). unfold disjoint_regs, reg_end in *. rewrite Eo, Ew, Eo', Ew'. exact Hi.
+Qed.
+
+Lemma reg_imgs_geom g g' : wf_regs g -> wf_regs g' -> same_layout g g' -> Forall2 same_geom (reg_imgs g) (reg_imgs g').
+Proof.
+  intros Hg Hg' Hsl. unfold reg_imgs. apply Forall2_nth; [rewrite !map_length; symmetry; now apply same_layout_len|].
+  intros k x y Hx Hy. rewrite nth_error_map in Hx, Hy.
+  destruct (nth_error (g_regs g) k) as [r|] eqn:Er; [|discriminate]. injection Hx as <-.
+  destruct (nth_error (g_regs g') k) as [r'|] eqn:Er'; [|discriminate]. injection Hy as <-.
+  destruct (same_layout_geom g g' k r r' Hsl Er Er') as (Eo & Ew & _).
+  unfold same_geom, reg_img. cbn [fst snd]. rewrite !enc_length, Eo, Ew. split; reflexivity.
+Qed.
+
+(* ---- size: every export of a PFR / IFR area has exactly BINARY_SIZE bytes, sealed or not;
+        sealing only replaces the seal words *)
+Definition seal_bytes (count : Z) : list N := List.concat (repeat SEAL (Z.to_nat count)).
+
+Lemma seal_bytes_length count : 0 <= count -> zlen (seal_bytes count) = 4 * count.
+Proof.
+  intros H. unfold seal_bytes, zlen. rewrite <- (Z2Nat.id count) at 2 by assumption.
+  induction (Z.to_nat count) as [|n IH]; [reflexivity|]. cbn [repeat List.concat]. rewrite app_length. cbn [SEAL length]. lia.
+Qed.
+
+Theorem area_export_size_lemma A g add_seal : wf_area A -> a_sized A = true -> state_of A g ->
+  exists bin, area_export A g add_seal = Ok bin /\ zlen bin = a_size A.
+Proof.
+  intros W Hs (Hg & Hsl). destruct (wa_sized A W Hs) as (Hpos & _).
+  assert (Hf : regs_fit g (a_size A)).
+  { apply (regs_fit_layout (a_regs A)); [exact Hsl|]. pose proof (wa_fit A W) as F. unfold area_total in F. now rewrite Hs in F. }
+  destruct (export_with_ok g (a_size A) (a_fill A) Hg Hf (wa_size A W)) as (bin & Ex & Lb & _).
+  assert (Et : total_of g (a_size A) = a_size A) by (unfold total_of; replace (a_size A =? 0) with false by lia; reflexivity).
+  rewrite Et in Lb. unfold area_export. rewrite Hs, Ex. cbn [bind].
+  destruct add_seal; [destruct (a_seal A) as [(start, count)|] eqn:Es|].
+  - destruct (wa_seal A W start count Es) as (S1 & S2 & S3).
+    assert (L : zlen (splice bin (Z.to_nat start) (seal_bytes count)) = a_size A).
+    { unfold zlen. rewrite splice_length; [exact Lb|]. pose proof (seal_bytes_length count S2). unfold zlen in *. lia. }
+    fold (seal_bytes count). rewrite L, Z.eqb_refl. eexists. split; [reflexivity|exact L].
+  - rewrite Lb, Z.eqb_refl. exists bin. split; [reflexivity|exact Lb].
+  - rewrite Lb, Z.eqb_refl. exists bin. split; [reflexivity|exact Lb].
+Qed.
+
+Theorem area_seal_lemma A g start count : wf_area A -> a_sized A = true -> state_of A g -> a_seal A = Some (start, count) ->
+  exists plain sealed, area_export A g false = Ok plain /\ area_export A g true = Ok sealed /\
+    sealed = splice plain (Z.to_nat start) (seal_bytes count) /\
+    slice sealed (Z.to_nat start) (Z.to_nat start + length (seal_bytes count)) = seal_bytes count /\
+    firstn (Z.to_nat start) sealed = firstn (Z.to_nat start) plain /\
+    skipn (Z.to_nat start + length (seal_bytes count)) sealed = skipn (Z.to_nat start + length (seal_bytes count)) plain.
+Proof.
+  intros W Hs St Es. destruct (area_export_size_lemma A g false W Hs St) as (plain & E0 & L0).
+  destruct (area_export_size_lemma A g true W Hs St) as (sealed & E1 & L1).
+  exists plain, sealed. split; [exact E0|]. split; [exact E1|].
+  destruct (wa_seal A W start count Es) as (S1 & S2 & S3). pose proof (seal_bytes_length count S2) as Ls.
+  assert (E : sealed = splice plain (Z.to_nat start) (seal_bytes count)).
+  { unfold area_export in E0, E1. rewrite Hs in E0, E1. rewrite Es in E1.
+    destruct (export_with g (a_size A) (a_fill A)) as [d|]; [|discriminate]. cbn [bind] in E0, E1.
+    destruct (zlen d =? a_size A); [|discriminate]. injection E0 as <-. fold (seal_bytes count) in E1.
+    destruct (zlen (splice d (Z.to_nat start) (seal_bytes count)) =? a_size A); [|discriminate]. now injection E1 as <-. }
+  split; [exact E|]. subst sealed. unfold zlen in *.
+  split; [apply splice_slice; lia|]. unfold splice. split.
+  - rewrite firstn_app, firstn_firstn, firstn_length. replace (Nat.min (Z.to_nat start) (Z.to_nat start)) with (Z.to_nat start) by lia.
+    replace (Z.to_nat start - Nat.min (Z.to_nat start) (length plain))%nat with 0%nat by lia. cbn [firstn]. apply app_nil_r.
+  - rewrite app_assoc. rewrite skipn_app. rewrite skipn_all2 by (rewrite app_length, firstn_length; lia).
+    rewrite app_length, firstn_length. replace (Z.to_nat start + length (seal_bytes count) - (Nat.min (Z.to_nat start) (length plain) + length (seal_bytes count)))%nat with 0%nat by lia.
+    reflexivity.
+Qed.
+
+(* ---- the area's own parser accepts the export, and exporting the parsed object gives the same binary again
+        (PFR / IFR areas: BaseConfigArea.parse is Registers.parse; register files may overlap) *)
+Theorem area_parse_export_lemma A g : wf_area A -> a_sized A = true -> state_of A g -> hidden_agree g (a_regs A) ->
+  exists bin g', area_export A g false = Ok bin /\ zlen bin = a_size A /\
+                 area_parse A (a_regs A) bin = Ok g' /\ state_of A g' /\ area_export A g' false = Ok bin.
+Proof.
+  intros W Hs (Hg & Hsl) Hh. destruct (wa_sized A W Hs) as (Hpos & Hk).
+  assert (Hf : regs_fit g (a_size A)).
+  { apply (regs_fit_layout (a_regs A)); [exact Hsl|]. pose proof (wa_fit A W) as F. unfold area_total in F. now rewrite Hs in F. }
+  destruct (export_parse_export_lemma g (a_regs A) (a_size A) (a_fill A) Hg (wa_regs A W) (eq_sym Hsl) Hh Hf (wa_size A W) (wa_fill A W))
+    as (bin & g' & Ex & Lb & Pa & Hg' & Hsl' & Ex').
+  assert (Et : total_of g (a_size A) = a_size A) by (unfold total_of; replace (a_size A =? 0) with false by lia; reflexivity).
+  rewrite Et in Lb. exists bin, g'.
+  assert (Eexp : forall x, export_with x (a_size A) (a_fill A) = Ok bin -> area_export A x false = Ok bin).
+  { intros x E. unfold area_export. rewrite Hs, E. cbn [bind]. now rewrite Lb, Z.eqb_refl. }
+  split; [now apply Eexp|]. split; [exact Lb|]. split.
+  - unfold area_parse. replace (a_kind A =? 5) with false by lia. replace (a_kind A =? 6) with false by lia.
+    replace (a_kind A =? 4) with false by lia. replace (a_kind A =? 7) with false by lia. exact Pa.
+  - split; [split; [exact Hg'|eapply same_layout_trans; eassumption]|now apply Eexp].
+Qed.
+
+(* the same for register files exported in their automatic size (BCA / FCF / FCB / memory option words without the
+   class specific tag and length checks): Registers.parse o Registers.export *)
+Theorem registers_parse_export_lemma g g0 : wf_regs g -> wf_regs g0 -> same_layout g g0 -> hidden_agree g g0 ->
+  Forall (fun r => 0 <= s_offset (r_base r)) (g_regs g) ->
+  exists bin g', export_with g 0 0%N = Ok bin /\ parse g0 bin = Ok g' /\ export_with g' 0 0%N = Ok bin.
+Proof.
+  intros Hg Hg0 Hsl Hh Ho.
+  assert (Hf : regs_fit g 0) by (eapply Forall_impl; [|exact Ho]; intros r H; split; [exact H|now left]).
+  destruct (export_parse_export_lemma g g0 0 0%N Hg Hg0 Hsl Hh Hf (Z.le_refl 0) eq_refl) as (bin & g' & Ex & _ & Pa & _ & _ & Ex').
+  exists bin, g'. tauto.
+Qed.
+
+(* ---- every register that shares no byte with another one is found in the binary, in the byte order of the file *)
+Theorem area_value_in_binary_lemma A g i r bin : wf_area A -> a_sized A = true -> state_of A g ->
+  nth_error (g_regs g) i = Some r -> isolated (a_regs A) i -> area_export A g false = Ok bin ->
+  slice bin (Z.to_nat (s_offset (r_base r))) (Z.to_nat (reg_end r)) =
+  enc (g_big g) (Z.to_nat (s_width (r_base r) / 8)) (reg_stored r true).
+Proof.
+  intros W Hs (Hg & Hsl) E Hi Ex.
+  assert (Hf : regs_fit g (a_size A)).
+  { apply (regs_fit_layout (a_regs A)); [exact Hsl|]. pose proof (wa_fit A W) as F. unfold area_total in F. now rewrite Hs in F. }
+  unfold area_export in Ex. rewrite Hs in Ex.
+  destruct (export_with g (a_size A) (a_fill A)) as [d|] eqn:Ed; [|discriminate]. cbn [bind] in Ex.
+  destruct (zlen d =? a_size A); [|discriminate]. injection Ex as <-.
+  eapply export_reg_bytes_lemma; try eassumption; [apply W|]. eapply isolated_layout; eassumption.
+Qed.
+
+(* ---- computed fields hold in every binary exported after load_from_config, for every register that the configuration
+        gives as a mapping without the computed bit-field *)
+Theorem computed_hold_lemma A cfg g : wf_area A -> a_sized A = true -> area_load A (a_regs A) cfg = Ok g ->
+  state_of A g /\
+  forall i k m e, In (i, k, m) (a_computed A) -> cfg_lookup cfg (Top i) None = Some e -> needs_compute e k = true ->
+    exists v r, t_get g (Top i) true = Ok v /\ computed_rel m v /\ nth_error (g_regs g) i = Some r /\ s_width (r_base r) = 32 /\
+      forall bin, area_export A g false = Ok bin ->
+        slice bin (Z.to_nat (s_offset (r_base r))) (Z.to_nat (s_offset (r_base r)) + 4) = enc (g_big g) 4 v.
+Proof.
+  intros W Hs L. destruct (wa_sized A W Hs) as (_ & Hk).
+  unfold area_load in L. pose proof (load_cfg_wf (plain_cfg cfg) (a_regs A) (wa_regs A W)) as K.
+  destruct (load_cfg (a_regs A) (plain_cfg cfg)) as (g1, [u|e1]); [|discriminate]. cbn [fst] in K. destruct K as (Hg1 & Hsl1).
+  rewrite Hs in L.
+  destruct (recompute_lemma cfg (a_computed A) g1 Hg1) as (g2 & R & Hg2 & Hsl2 & _ & Co).
+  { eapply Forall_impl; [|exact (wa_comp A W)]. intros c (C & _). eapply comp_ok_layout; eassumption. }
+  { exact (wa_nodup A W). }
+  rewrite R in L. cbn [bind] in L. unfold fix_size in L. replace (a_kind A =? 7) with false in L by lia. injection L as <-.
+  assert (St : state_of A g2) by (split; [exact Hg2|eapply same_layout_trans; eassumption]).
+  split; [exact St|]. intros i k m e Hin Hl Hn.
+  destruct (Co i k m e Hin Hl Hn) as (v & G & Rv & Cr).
+  pose proof (wa_comp A W) as Hc. rewrite Forall_forall in Hc. destruct (Hc (i, k, m) Hin) as ((s & Es & Ws & _) & Hiso).
+  cbn [comp_reg fst] in Es, Hiso.
+  destruct St as (_ & Hsl). destruct (same_layout_sreg (a_regs A) g2 (Top i) s Hsl Es) as (s2 & Es2 & Ee).
+  destruct (erase_s_fields s s2 Ee) as (_ & Ew & _).
+  cbn [t_sreg] in Es2. destruct (nth_error (g_regs g2) i) as [r|] eqn:Er; [|discriminate]. cbn [option_map] in Es2. injection Es2 as <-.
+  exists v, r. split; [exact G|]. split; [exact Cr|]. split; [reflexivity|]. split; [congruence|].
+  intros bin Ex.
+  pose proof (area_value_in_binary_lemma A g2 i r bin W Hs (conj Hg2 Hsl) Er Hiso Ex) as Hb.
+  assert (Ew' : s_width (r_base r) = 32) by congruence.
+  unfold reg_end in Hb. rewrite Ew' in Hb. change (32 / 8) with 4 in Hb.
+  assert (Hoff : 0 <= s_offset (r_base r)).
+  { assert (Hf : regs_fit g2 (area_total A)) by (apply (regs_fit_layout (a_regs A)); [exact Hsl|apply W]).
+    unfold regs_fit in Hf. rewrite Forall_forall in Hf. destruct (Hf r (nth_error_In _ _ Er)) as (F1 & _). exact F1. }
+  replace (Z.to_nat (s_offset (r_base r) + 4)) with (Z.to_nat (s_offset (r_base r)) + 4)%nat in Hb by lia.
+  rewrite Hb. f_equal.
+  (* the raw value read through the API is the stored one *)
+  cbn [t_get] in G. rewrite Er in G. rewrite reg_get_ok in G by exact (wf_regs_nth g2 i r Hg2 Er). rewrite view_raw in G. now injection G.
+Qed.
+
+(* ====================================================================== H. TrustZone preset data *)
+Lemma tz_words_length P cu : forall i ws, tz_words P cu i = Ok ws -> length ws = length P.
+Proof.
+  induction P as [|(n, d) t IH]; intros i ws H; cbn [tz_words] in H; [now injection H as <-|].
+  destruct (tz_value _) as [w|]; [|discriminate]. cbn [bind] in H.
+  destruct (tz_words t cu (i + 1)) as [ws'|] eqn:E; [|discriminate]. cbn [bind] in H. injection H as <-. cbn. f_equal. eapply IH; eassumption.
+Qed.
+
+Lemma flat_enc_length ws : length (flat_map (fun w => le_enc 4 (Z.to_N w)) ws) = (4 * length ws)%nat.
+Proof. induction ws as [|w t IH]; [reflexivity|]. cbn [flat_map]. rewrite app_length, le_enc_length, IH. cbn. lia. Qed.
+
+(* the exported data has four bytes per preset *)
+Theorem tz_export_size_lemma P cu b : tz_export P cu = Ok b -> zlen b = 4 * zlen P.
+Proof.
+  unfold tz_export. intros H. destruct (tz_words P cu 0) as [ws|] eqn:E; [|discriminate]. cbn [bind] in H.
+  destruct (forallb _ ws); [|discriminate]. injection H as <-. unfold zlen. rewrite flat_enc_length, (tz_words_length P cu 0 ws E). lia.
+Qed.
+
+Lemma tz_unpack_S n raw : tz_unpack (S n) raw = Z.of_N (le_dec (firstn 4 raw)) :: tz_unpack n (skipn 4 raw).
+Proof. reflexivity. Qed.
+
+Lemma firstn_app_exact' {A} (a b : list A) n : length a = n -> firstn n (a ++ b) = a.
+Proof. intros <-. rewrite firstn_app, Nat.sub_diag, firstn_all. cbn [firstn]. apply app_nil_r. Qed.
+Lemma skipn_app_exact' {A} (a b : list A) n : length a = n -> skipn n (a ++ b) = b.
+Proof. intros <-. rewrite skipn_app, Nat.sub_diag, skipn_all. reflexivity. Qed.
+
+Lemma tz_unpack_enc ws : Forall (fun w => 0 <= w < 2 ^ 32) ws ->
+  forall rest, tz_unpack (length ws) (flat_map (fun w => le_enc 4 (Z.to_N w)) ws ++ rest) = ws.
+Proof.
+  induction 1 as [|w t Hw Ht IH]; intros rest; [reflexivity|].
+  change (length (w :: t)) with (S (length t)). rewrite tz_unpack_S.
+  change (flat_map (fun w0 => le_enc 4 (Z.to_N w0)) (w :: t)) with (le_enc 4 (Z.to_N w) ++ flat_map (fun w0 => le_enc 4 (Z.to_N w0)) t).
+  rewrite <- app_assoc.
+  rewrite firstn_app_exact' by apply le_enc_length. rewrite skipn_app_exact' by apply le_enc_length.
+  rewrite le_dec_enc_small by (change (2 ^ (8 * N.of_nat 4))%N with (Z.to_N (2 ^ 32)); lia).
+  rewrite Z2N.id by lia. f_equal. apply IH.
+Qed.
+
+Lemma tz_custom_seq ws : forall s i acc,
+  tz_custom (combine (zseq s (length ws)) (map VInt ws)) i acc =
+  if (s <=? i) && (i <? s + zlen ws) then Some (VInt (nth (Z.to_nat (i - s)) ws 0)) else acc.
+Proof.
+  induction ws as [|w t IH]; intros s i acc; unfold zlen; cbn [length zseq map combine tz_custom].
+  - replace ((s <=? i) && (i <? s + Z.of_nat 0)) with false by lia. reflexivity.
+  - rewrite IH. unfold zlen. destruct (Z.eqb_spec i s) as [->|Hne].
+    + replace ((s + 1 <=? s) && (s <? s + 1 + Z.of_nat (length t))) with false by lia.
+      replace ((s <=? s) && (s <? s + Z.of_nat (S (length t)))) with true by lia. now rewrite Z.sub_diag.
+    + destruct (Z.leb_spec (s + 1) i); destruct (Z.ltb_spec i (s + 1 + Z.of_nat (length t))); cbn [andb].
+      * replace ((s <=? i) && (i <? s + Z.of_nat (S (length t)))) with true by lia.
+        replace (Z.to_nat (i - s)) with (S (Z.to_nat (i - (s + 1)))) by lia. reflexivity.
+      * replace ((s <=? i) && (i <? s + Z.of_nat (S (length t)))) with false by lia. reflexivity.
+      * replace ((s <=? i) && (i <? s + Z.of_nat (S (length t)))) with false by lia. reflexivity.
+      * replace ((s <=? i) && (i <? s + Z.of_nat (S (length t)))) with false by lia. reflexivity.
+Qed.
+
+Lemma tz_words_custom P : forall ws cu s, length ws = length P ->
+  (forall j w, nth_error ws j = Some w -> tz_custom cu (s + Z.of_nat j) None = Some (VInt w)) ->
+  tz_words P cu s = Ok ws.
+Proof.
+  induction P as [|(n, d) t IH]; intros ws cu s Hl H; destruct ws as [|w ws']; try discriminate; cbn [tz_words]; [reflexivity|].
+  pose proof (H 0%nat w eq_refl) as H0. rewrite Z.add_0_r in H0. rewrite H0. cbn [tz_value bind].
+  rewrite (IH ws' cu (s + 1)); [reflexivity|cbn in Hl; lia|].
+  intros j x Hj. specialize (H (S j) x Hj). replace (s + 1 + Z.of_nat j) with (s + Z.of_nat (S j)) by lia. exact H.
+Qed.
+
+(* from_binary(export) gives back the words and exports the same data *)
+Theorem tz_parse_export_lemma P cu b : tz_export P cu = Ok b ->
+  exists ws, tz_parse P b = Ok ws /\ tz_export P (tz_customs_of ws) = Ok b.
+Proof.
+  unfold tz_export. intros H. destruct (tz_words P cu 0) as [ws|] eqn:E; [|discriminate]. cbn [bind] in H.
+  destruct (forallb (fun w => (0 <=? w) && (w <? 2 ^ 32)) ws) eqn:Ef; [|discriminate].
+  assert (Hb : b = flat_map (fun w => le_enc 4 (Z.to_N w)) ws) by (injection H as <-; reflexivity). clear H.
+  pose proof (tz_words_length P cu 0 ws E) as Lw.
+  assert (Hr : Forall (fun w => 0 <= w < 2 ^ 32) ws).
+  { apply Forall_forall. intros w Hw. rewrite forallb_forall in Ef. specialize (Ef w Hw). lia. }
+  assert (Lb : length b = (4 * length ws)%nat) by (rewrite Hb; apply flat_enc_length).
+  exists ws. split.
+  - unfold tz_parse, zlen. rewrite Lb.
+    destruct (Z.gtb_spec (Z.of_nat (length P)) (Z.of_nat (4 * length ws) / 4)) as [G|G]; [lia|].
+    rewrite <- Lw. f_equal. rewrite Hb. rewrite <- (app_nil_r (flat_map _ ws)). now apply tz_unpack_enc.
+  - rewrite (tz_words_custom P ws (tz_customs_of ws) 0 Lw).
+    + cbn [bind]. rewrite Ef. now rewrite Hb.
+    + intros j w Hj. unfold tz_customs_of. rewrite tz_custom_seq. unfold zlen.
+      assert (j < length ws)%nat by (apply nth_error_Some; congruence).
+      replace ((0 <=? 0 + Z.of_nat j) && (0 + Z.of_nat j <? 0 + Z.of_nat (length ws))) with true by lia.
+      replace (Z.to_nat (0 + Z.of_nat j - 0)) with j by lia. f_equal. f_equal. now apply nth_error_nth.
+Qed.
+
+(* ====================================================================== I. the database sweep *)
+(* structural classes of the recorded findings: the positive theorems above do not speak about these areas *)
+Definition has_alt_b (A : area) : bool :=
+  existsb (fun r => match s_alt (r_base r) with [] => false | _ => true end) (g_regs (a_regs A)).
+Definition short_group_b (r : reg) : bool :=
+  match r_subs r with
+  | [] => false
+  | s0 :: _ => negb (Z.of_nat (length (r_subs r)) * s_width s0 =? s_width (r_base r))
+  end.
+Definition has_short_group_b (A : area) : bool := existsb short_group_b (g_regs (a_regs A)).
+Definition beyond_size_b (A : area) : bool :=
+  negb (a_sized A) && negb (a_size A =? 0) && (a_size A <? image_size (reg_imgs (a_regs A))).
+Definition known_class_b (A : area) : bool := has_alt_b A || has_short_group_b A || beyond_size_b A.
+
+(* every area of every family and revision in the database is well formed, or belongs to a recorded class *)
+Lemma all_areas_swept_lemma : forallb (fun A => wf_area_b A || known_class_b A) all_areas = true.
+Proof. vm_compute. reflexivity. Qed.
+
+Lemma all_areas_wf_lemma A : In A all_areas -> known_class_b A = false -> wf_area A.
+Proof.
+  intros Hin Hk. apply wf_area_b_sound. pose proof all_areas_swept_lemma as H. rewrite forallb_forall in H.
+  specialize (H A Hin). rewrite Hk, orb_false_r in H. exact H.
+Qed.
+
+(* the classes are not empty words: the recorded findings are in today's data *)
+Lemma known_classes_inhabited_lemma :
+  existsb has_alt_b all_areas = true /\ existsb has_short_group_b all_areas = true /\ existsb beyond_size_b all_areas = true.
+Proof. vm_compute. repeat split. Qed.
+
+(* finding C12-F1: a group register declared wider than its sub-registers drops the upper part of an in-range value *)
+Definition truncating_group_b (A : area) : bool :=
+  existsb (fun ir =>
+    short_group_b (snd ir) &&
+    let W := s_width (r_base (snd ir)) in
+    match t_set (a_regs A) (Top (fst ir)) (2 ^ (W - 1)) true with
+    | Ok g => match t_get g (Top (fst ir)) true with Ok v => negb (v =? 2 ^ (W - 1)) | Err _ => false end
+    | Err _ => false
+    end) (indexed (g_regs (a_regs A))).
+
+Lemma group_value_truncated_refuted_lemma : exists A, In A all_areas /\ truncating_group_b A = true.
+Proof.
+  assert (H : existsb truncating_group_b all_areas = true) by (vm_compute; reflexivity).
+  apply existsb_exists in H. exact H.
+Qed.
+
+(* the hypotheses of the theorems are satisfiable on real data: the first CMPA layout of the database *)
+Example ex_area_wf : match all_areas with A :: _ => wf_area_b A = true /\ a_sized A = true | [] => False end.
+Proof. vm_compute. split; reflexivity. Qed.
+Example ex_hidden_agree A : hidden_agree (a_regs A) (a_regs A).
+Proof. intros i r E _. exact E. Qed.
